@@ -60,7 +60,8 @@ Record st := {
   cdecq : list s2c_frame;
   cstrq : list (sid * nat);
   unary_done : list nat;              (* unary calls completed on the client *)
-  lost : bool                         (* the connection has ended *)
+  lost : bool;                        (* the connection has ended *)
+  torn : bool                         (* the server connection's teardown has run *)
 }.
 
 (* code variant: does the server write the acknowledgement before it starts the handler? *)
@@ -70,7 +71,7 @@ Definition legacy : variant := {| v_ack_first := false |}.
 
 Definition init : st := {|
   cstreams := []; sstreams := []; sgone := []; w_c2s := []; w_s2c := []; sdecq := []; sstrq := [];
-  cdecq := []; cstrq := []; unary_done := []; lost := false |}.
+  cdecq := []; cstrq := []; unary_done := []; lost := false; torn := false |}.
 
 Fixpoint lookup {A} (k : sid) (l : list (sid * A)) : option A :=
   match l with
@@ -101,6 +102,8 @@ Inductive action :=
 | NetC2S                          (* one frame reaches the server's reader *)
 | NetS2C
 | ConnLoss                        (* the connection ends: both readers fail *)
+| STeardown                       (* the server connection's tail, after the decode queue has drained:
+                                     for every stream in the table: Close *)
 (* server *)
 | SDecode                         (* ServeRequest on the head of the decode queue *)
 | SAck (s : sid)                  (* the open acknowledgement is written (pinned tree: after the handler start) *)
@@ -122,19 +125,19 @@ Definition sstream0 : sstream := {|
 (* ---- setters ---- *)
 Definition set_c (s : sid) (c : cstream) (x : st) : st :=
   {| cstreams := update s c (cstreams x); sstreams := sstreams x; sgone := sgone x; w_c2s := w_c2s x; w_s2c := w_s2c x;
-     sdecq := sdecq x; sstrq := sstrq x; cdecq := cdecq x; cstrq := cstrq x; unary_done := unary_done x; lost := lost x |}.
+     sdecq := sdecq x; sstrq := sstrq x; cdecq := cdecq x; cstrq := cstrq x; unary_done := unary_done x; lost := lost x; torn := torn x |}.
 Definition set_s (s : sid) (c : sstream) (x : st) : st :=
   {| cstreams := cstreams x; sstreams := update s c (sstreams x); sgone := sgone x; w_c2s := w_c2s x; w_s2c := w_s2c x;
-     sdecq := sdecq x; sstrq := sstrq x; cdecq := cdecq x; cstrq := cstrq x; unary_done := unary_done x; lost := lost x |}.
+     sdecq := sdecq x; sstrq := sstrq x; cdecq := cdecq x; cstrq := cstrq x; unary_done := unary_done x; lost := lost x; torn := torn x |}.
 Definition set_wires (a : list c2s_frame) (b : list s2c_frame) (x : st) : st :=
   {| cstreams := cstreams x; sstreams := sstreams x; sgone := sgone x; w_c2s := a; w_s2c := b;
-     sdecq := sdecq x; sstrq := sstrq x; cdecq := cdecq x; cstrq := cstrq x; unary_done := unary_done x; lost := lost x |}.
+     sdecq := sdecq x; sstrq := sstrq x; cdecq := cdecq x; cstrq := cstrq x; unary_done := unary_done x; lost := lost x; torn := torn x |}.
 Definition set_sq (d : list c2s_frame) (q : list (sid * nat)) (x : st) : st :=
   {| cstreams := cstreams x; sstreams := sstreams x; sgone := sgone x; w_c2s := w_c2s x; w_s2c := w_s2c x;
-     sdecq := d; sstrq := q; cdecq := cdecq x; cstrq := cstrq x; unary_done := unary_done x; lost := lost x |}.
+     sdecq := d; sstrq := q; cdecq := cdecq x; cstrq := cstrq x; unary_done := unary_done x; lost := lost x; torn := torn x |}.
 Definition set_cq (d : list s2c_frame) (q : list (sid * nat)) (x : st) : st :=
   {| cstreams := cstreams x; sstreams := sstreams x; sgone := sgone x; w_c2s := w_c2s x; w_s2c := w_s2c x;
-     sdecq := sdecq x; sstrq := sstrq x; cdecq := d; cstrq := q; unary_done := unary_done x; lost := lost x |}.
+     sdecq := sdecq x; sstrq := sstrq x; cdecq := d; cstrq := q; unary_done := unary_done x; lost := lost x; torn := torn x |}.
 
 (* ---- stream ends ---- *)
 (* ReadMessage on an end with events [ev], closed flag [cl] *)
@@ -248,11 +251,24 @@ Definition step (v : variant) (x : st) (a : action) : option st :=
       end
   | ConnLoss =>
       if lost x then None else
-      (* both readers fail: every registered stream on either end is stopped; what is on the wire is gone *)
+      (* both readers fail: every registered stream of the client is stopped; what is on the wire is gone.
+         The server ends are stopped by the teardown, once the decode queue has drained *)
       Some {| cstreams := map (fun p => (fst p, c_stop (snd p))) (cstreams x);
-              sstreams := map (fun p => (fst p, s_stop (snd p))) (sstreams x);
+              sstreams := sstreams x;
               sgone := sgone x; w_c2s := []; w_s2c := []; sdecq := sdecq x; sstrq := sstrq x;
-              cdecq := cdecq x; cstrq := cstrq x; unary_done := unary_done x; lost := true |}
+              cdecq := cdecq x; cstrq := cstrq x; unary_done := unary_done x; lost := true; torn := torn x |}
+  | STeardown =>
+      if lost x then
+        match sdecq x with
+        | [] =>
+            if torn x then None else
+            Some {| cstreams := cstreams x;
+                    sstreams := map (fun p => (fst p, s_stop (snd p))) (sstreams x);
+                    sgone := sgone x; w_c2s := w_c2s x; w_s2c := w_s2c x; sdecq := []; sstrq := sstrq x;
+                    cdecq := cdecq x; cstrq := cstrq x; unary_done := unary_done x; lost := true; torn := true |}
+        | _ :: _ => None
+        end
+      else None
   | SDecode =>
       match sdecq x with
       | [] => None
@@ -279,7 +295,7 @@ Definition step (v : variant) (x : st) (a : action) : option st :=
                         | Some c => {| cstreams := cstreams x0; sstreams := remove s (sstreams x0);
                                        sgone := sgone x0 ++ [(s, s_stop c)]; w_c2s := w_c2s x0; w_s2c := w_s2c x0;
                                        sdecq := sdecq x0; sstrq := sstrq x0; cdecq := cdecq x0; cstrq := cstrq x0;
-                                       unary_done := unary_done x0; lost := lost x0 |}
+                                       unary_done := unary_done x0; lost := lost x0; torn := torn x0 |}
                         | None => x0
                         end in
               Some (set_wires (w_c2s x1) (if lost x then w_s2c x1 else w_s2c x1 ++ [PCloseAck s]) x1)
@@ -365,7 +381,7 @@ Definition step (v : variant) (x : st) (a : action) : option st :=
           | PUnary id =>
               Some {| cstreams := cstreams x0; sstreams := sstreams x0; sgone := sgone x0; w_c2s := w_c2s x0; w_s2c := w_s2c x0;
                       sdecq := sdecq x0; sstrq := sstrq x0; cdecq := cdecq x0; cstrq := cstrq x0;
-                      unary_done := unary_done x0 ++ [id]; lost := lost x0 |}
+                      unary_done := unary_done x0 ++ [id]; lost := lost x0; torn := torn x0 |}
           end
       end
   | CDeliver =>
